@@ -56,6 +56,21 @@ CLAIMED["C08"] = dict(
     technique=TECH + ": scripted second party (host) with recorded call histories over the full operation matrix and seeded programs",
 )
 
+CLAIMED["C10"] = dict(
+    level="exploration",
+    text="Truthiness and short-circuit evaluation are observed through the host-call history, which is the observation point the property names: (A) 35 representative values of all data types (and a declining host) x 9 testing forms x both implementations on every invocation, (B) seeded control-flow-heavy programs in which every operand is a distinct host-resolved identifier, run under 8 truth assignments per program (falsy = declined / unit / $!). The recorded history (symbols, order, multiplicity) and the final value must equal those of a reference evaluator that interprets the real parse tree with its own value model.",
+    design="DESIGN.md §5 C10, §4.1",
+    note="Trusted: the reference evaluator's semantics (derived from the builder/runtime sources and cross-checked on probe programs), which abstains outside the core language and when the real run returns a runtime error other than a host failure; the scripted recording host.",
+    technique=TECH + ": scripted host with recorded call histories compared with a reference evaluator",
+)
+CLAIMED["C17"] = dict(
+    level="exploration",
+    text="Seeded core-language programs with identifiers and externals at every operand position, run with inputs that provide a random subset of the identifiers (pair, keyed list, slice of a keyed list, concatenation, non-container) under hosts that resolve none / some / all, provide values or externals, decline, fail at the n-th call or churn; plus explicit minimal protocol scenarios on every invocation. The recorded resolve / apply history (order, count, symbols, external numbers, structural arguments, answers) and the final value must equal the reference evaluator's: input first, then exactly one host call, unit when declined, result used at exactly that occurrence.",
+    design="DESIGN.md §5 C17, §4.1",
+    note="Trusted: reference evaluator semantics, scripted recording host. External apply is exercised on BasicGarnishData only (SimpleGarnishData does not expose the hook). Keyed lookups in lists with unkeyed items / duplicate keys give no verdict (C16).",
+    technique=TECH + ": scripted host (resolve/apply callbacks incl. failing and churning) with recorded call histories compared with a reference evaluator",
+)
+
 NOT_APPLICABLE = {
     "C01": "pure function of (source text, input value, data implementation): no schedule, fault, configuration or second party in the statement — input generation, not simulation",
     "C02": "parse is a pure function of the token sequence; deciding it means enumerating operator pairs/triples, not simulating anything",
@@ -72,8 +87,6 @@ NOT_APPLICABLE = {
 }
 
 PENDING = {
-    "C10": "claimed in DESIGN.md; check not built yet in this commit (simulation target: host-call histories)",
-    "C17": "claimed in DESIGN.md; check not built yet in this commit (simulation target: host-call histories)",
 }
 
 def main():
